@@ -238,10 +238,11 @@ const (
 	byzShortSig
 	byzNilContent
 	byzOtherContent
+	byzWrongContentThenShort
 	byzKinds
 )
 
-var byzNames = []string{"silent", "duplicate", "re-encoded", "invalid", "foreign-request", "foreign-group", "short-signature", "nil-content", "other-content"}
+var byzNames = []string{"silent", "duplicate", "re-encoded", "invalid", "foreign-request", "foreign-group", "short-signature", "nil-content", "other-content", "valid-share-under-other-content-then-short-signature"}
 
 type sysOutcome struct {
 	reports  [][]doubles.Report
@@ -412,6 +413,15 @@ func runQuerySystemWith(rng *hx.Rng, n int, lastRand, reqID, seed *big.Int, pTyp
 			m2 := proto.Clone(base).(*vss.Signature)
 			m2.Content, m2.Signature = oc, s2
 			send(b, m2)
+		case byzWrongContentThenShort:
+			// the member's valid share, labelled with another content; then the right content with a
+			// signature too short to hold coordinates
+			m2 := proto.Clone(base).(*vss.Signature)
+			m2.Content = append([]byte("zz"), content...)
+			send(b, m2)
+			m3 := proto.Clone(base).(*vss.Signature)
+			m3.Signature = []byte{byte(b)}
+			send(b, m3)
 		}
 	}
 	wg.Wait()
